@@ -156,6 +156,28 @@ var arrFns = []struct {
 	{"nested_foreach_modify", nil, `(function() { $a = ["q"=>1,"b"=>2,"z"=>3]; $s = ""; foreach ($a as $k => $v) { if ($k == "q") { $a["n"] = 9; } $s .= $k; } return $s . count($a); })()`},
 	{"unset_then_add", nil, `(function() { $a = ["q"=>1,"b"=>2,"z"=>3]; unset($a["b"]); $a["b"] = 7; return json_encode($a); })()`},
 	{"clone_obj_props", nil, `(function() { $o = new Meth(); $c = clone $o; $c->extra = 1; return json_encode($c); })()`},
+	// the same library functions on arrays of a few hundred elements (a function may take another path above some size)
+	{"big_array_diff", []string{"array_diff", "range"}, `json_encode(array_diff(range(1, 200), [3, 50, 199]))`},
+	{"big_array_diff_keyed", []string{"array_diff"}, `json_encode(array_diff((function() { $a = []; for ($i = 0; $i < 300; $i++) { $a["k" . (($i * 37) % 300)] = ($i * 53) % 97; } return $a; })(), [5, 17, 96]))`},
+	{"big_array_diff_key", []string{"array_diff_key"}, `json_encode(array_diff_key((function() { $a = []; for ($i = 0; $i < 300; $i++) { $a["k" . (($i * 37) % 300)] = ($i * 53) % 97; } return $a; })(), ["k7" => 1, "k150" => 1]))`},
+	{"big_array_intersect", []string{"array_intersect", "range"}, `json_encode(array_intersect(range(1, 250), range(100, 400)))`},
+	{"big_array_intersect_key", []string{"array_intersect_key"}, `json_encode(array_intersect_key((function() { $a = []; for ($i = 0; $i < 300; $i++) { $a["k" . (($i * 37) % 300)] = ($i * 53) % 97; } return $a; })(), (function() { $a = []; for ($i = 0; $i < 300; $i++) { $a["k" . (($i * 37) % 300)] = ($i * 53) % 97; } return $a; })()))`},
+	{"big_array_unique", []string{"array_unique"}, `json_encode(array_unique((function() { $a = []; for ($i = 0; $i < 300; $i++) { $a["k" . (($i * 37) % 300)] = ($i * 53) % 97; } return $a; })()))`},
+	{"big_array_flip", []string{"array_flip"}, `json_encode(array_flip((function() { $a = []; for ($i = 0; $i < 300; $i++) { $a["k" . (($i * 37) % 300)] = ($i * 53) % 97; } return $a; })()))`},
+	{"big_array_count_values", []string{"array_count_values"}, `json_encode(array_count_values((function() { $a = []; for ($i = 0; $i < 300; $i++) { $a["k" . (($i * 37) % 300)] = ($i * 53) % 97; } return $a; })()))`},
+	{"big_array_merge", []string{"array_merge"}, `json_encode(array_merge((function() { $a = []; for ($i = 0; $i < 300; $i++) { $a["k" . (($i * 37) % 300)] = ($i * 53) % 97; } return $a; })(), ["k3" => -1, "zz" => -2]))`},
+	{"big_array_filter", []string{"array_filter"}, `json_encode(array_filter((function() { $a = []; for ($i = 0; $i < 300; $i++) { $a["k" . (($i * 37) % 300)] = ($i * 53) % 97; } return $a; })(), function($v) { return $v % 3 == 0; }))`},
+	{"big_array_map_keys", []string{"array_map", "array_keys"}, `json_encode(array_map(function($k) { return $k . "!"; }, array_keys((function() { $a = []; for ($i = 0; $i < 300; $i++) { $a["k" . (($i * 37) % 300)] = ($i * 53) % 97; } return $a; })())))`},
+	{"big_array_search_keys", []string{"array_keys"}, `json_encode(array_keys((function() { $a = []; for ($i = 0; $i < 300; $i++) { $a["k" . (($i * 37) % 300)] = ($i * 53) % 97; } return $a; })(), 5))`},
+	{"big_array_reverse", []string{"array_reverse"}, `json_encode(array_reverse((function() { $a = []; for ($i = 0; $i < 300; $i++) { $a["k" . (($i * 37) % 300)] = ($i * 53) % 97; } return $a; })(), true))`},
+	{"big_array_slice", []string{"array_slice"}, `json_encode(array_slice((function() { $a = []; for ($i = 0; $i < 300; $i++) { $a["k" . (($i * 37) % 300)] = ($i * 53) % 97; } return $a; })(), 100, 150, true))`},
+	{"big_array_column", []string{"array_column", "array_map"}, `json_encode(array_column(array_map(function($v) { return ["id" => "r" . $v, "v" => $v]; }, range(1, 200)), "v", "id"))`},
+	{"big_array_combine", []string{"array_combine", "range"}, `json_encode(array_combine(range(200, 1), range(1, 200)))`},
+	{"big_array_fill_keys", []string{"array_fill_keys", "array_keys"}, `json_encode(array_fill_keys(array_keys((function() { $a = []; for ($i = 0; $i < 300; $i++) { $a["k" . (($i * 37) % 300)] = ($i * 53) % 97; } return $a; })()), 0))`},
+	{"big_array_replace", []string{"array_replace"}, `json_encode(array_replace((function() { $a = []; for ($i = 0; $i < 300; $i++) { $a["k" . (($i * 37) % 300)] = ($i * 53) % 97; } return $a; })(), ["k299" => -1, "new" => -2]))`},
+	{"big_array_unique_list", []string{"array_unique", "array_map", "range"}, `json_encode(array_unique(array_map(function($i) { return $i % 140; }, range(1, 300))))`},
+	{"big_in_array_object", nil, `(function() { $o = new stdClass(); for ($i = 0; $i < 200; $i++) { $p = "p" . (($i * 37) % 200); $o->$p = $i; } return json_encode($o) . count(get_object_vars($o)); })()`},
+	{"big_str_word_count", []string{"array_count_values", "explode"}, `json_encode(array_count_values(explode(" ", str_repeat("q b z a m y c n ", 40))))`},
 }
 
 const fixedPrelude = `<?php
